@@ -3,4 +3,5 @@ INIT Init
 NEXT Next
 VIEW View
 INVARIANTS TypeOK OrderInv CompleteInv OffsetInv ErrPrecedenceInv
+PROPERTIES DeliverStep OffsetStep
 CHECK_DEADLOCK FALSE
